@@ -245,12 +245,22 @@ pub fn spec(id: &str) -> Option<Spec> {
             real: vec!["PciRoot::bar_info / bars / get_status_command / set_command / capabilities / enumerate_bus", "MmioCam, Cam::cam_offset", "CapabilityIterator, BusDeviceIterator"],
             stubbed: vec!["device: stateful reference PCI function (sim/src/pcidev.rs)"],
         },
+        "C11" => Spec {
+            id: "C11",
+            level: "exploration",
+            rule: "generated PCI functions (vendor/device ids, BARs of every kind with sizes 16 B..2^63, assigned or not; 3-8 capabilities in any order with duplicates, foreign ids, cap_len 8..255, bar index 0..255, offset/length/multiplier boundary-biased over the full 32-bit range; two thirds of the runs start from a well-formed template and perturb it) through PciTransport::new over the direct configuration access and the real MmioCam (CAM, ECAM); independent 128-bit verdict valid/invalid/either; valid functions are then driven through every transport operation with strict register-discipline checking and a late-completing reset on drop; non-trivial = construction succeeded on a function judged valid",
+            batches: vec![b("functions", scen::c11::run, 30_000, 800_000)],
+            extras: vec![],
+            assumptions: vec!["a common-configuration window that is 4- but not 8-byte aligned may be accepted or refused (the statement says 'suitably aligned')", "notifications are only issued for queues whose notify address lies inside the notification window"],
+            real: vec!["PciTransport::new, get_bar_region, all Transport methods, Drop", "PciRoot::capabilities / bar_info, MmioCam"],
+            stubbed: vec!["device: emulated PCI function + virtio-pci structures behind BAR windows (sim/src/pcidev.rs)"],
+        },
         _ => return None,
     };
     Some(s)
 }
 
-pub const ALL: &[&str] = &["C01", "C02", "C03", "C04", "C05", "C06", "C08", "C09", "C10", "C12", "C13", "C14", "C15", "C16", "C17", "C18", "C19", "C20"];
+pub const ALL: &[&str] = &["C01", "C02", "C03", "C04", "C05", "C06", "C08", "C09", "C10", "C11", "C12", "C13", "C14", "C15", "C16", "C17", "C18", "C19", "C20"];
 
 pub fn find_batch(prop: &str, batch: &str) -> Option<fn()> {
     spec(prop)?.batches.iter().find(|b| b.name == batch).map(|b| b.f)
